@@ -539,6 +539,15 @@ def _log_key(ctx: Ctx) -> None:
             v = repo.const(pk, n.value)
             if isinstance(v, str) and "." in v:
                 keys.append((n, v))
+    if not keys:
+        # the key held in a module constant and used directly
+        for n in ast.walk(lines.node):
+            if isinstance(n, ast.Call) and isinstance(
+                    n.func, ast.Attribute) and n.func.attr == "startswith" \
+                    and len(n.args) == 1:
+                v = repo.const(pk, n.args[0])
+                if isinstance(v, str) and "." in v:
+                    keys.append((n, v))
     ctx.need(keys, "_PackingParser.lines: the key it searches for")
     logm = repo.external_module("moptipy.api.logging")
     lgm = repo.external_module("moptipy.utils.logger")
